@@ -1,15 +1,97 @@
 """C17 configuration (see lib/props.py for the format)."""
 
+_KINDS = ["Sequence", "Parallel", "IfElse", "IfThen", "Switch", "Loop", "LoopIf", "Repeat", "Wrapper", "Composite",
+          "Probe", "Function", "Succ", "Fail", "Sleep"]
+
 PROP = dict(
     harnesses={"c17_action_tree": dict(sources=["harness/c17_action_tree.cpp"])},
     legs=[
-        dict(name="random", harness="c17_action_tree", flavour="asan", mode="random", quick=20000, thorough=1000000,
+        dict(name="random", harness="c17_action_tree", flavour="asan", mode="random", quick=100000, thorough=3000000,
              args=["--watchdog", "120"], case_timeout=120),
+        # 2250 (composite, mode, leaf behaviours) x 25 control placements x 2 tick orders
+        dict(name="exhaustive-single-composite", harness="c17_action_tree", flavour="asan", mode="exhaustive",
+             args=["--alpha", "5", "--watchdog", "120"], quick=112500, thorough=0, scalable=False, exhaustive=True, case_timeout=120),
+        # the same with a sixth leaf behaviour (block after one tick, fail one tick after the resume): 3918 x 50
+        dict(name="exhaustive-single-composite-6", harness="c17_action_tree", flavour="asan", mode="exhaustive",
+             args=["--alpha", "6", "--watchdog", "120"], quick=0, thorough=195900, scalable=False, exhaustive=True, case_timeout=120),
     ],
-    rule="tbd",
-    assumptions=[],
-    technique="tbd",
-    level_text="tbd",
-    level_note="tbd",
-    required_counters={"all": []},
+    rule=("random: a seeded action tree of 1-32 nodes and depth <= 4 over Sequence/Parallel (3 modes, 0-4 children), IfElse (both / only "
+          "then / only else), IfThen (1-3 pairs), Switch (0-3 cases, optional default, switch child leaf or composite), Loop (3 modes), "
+          "LoopIf (both finish results), Repeat (times 0-3, 3 modes), Wrapper (4 modes), Composite; leaves: probe leaf on DummyAction "
+          "(per invocation: succeed / fail / never, inside onStart or after 1-3 ticks, optionally block first - inside onStart or later - "
+          "and continue inside onResume or 1-2 ticks after it; reason message selects the Switch case), Function (plain and Reason& "
+          "form), Succ, Fail, Sleep 0-25 ms; timeouts of 1-50 ms on about 10% of the nodes in 40% of the trees. The harness is a task "
+          "inside the real loop that re-posts itself once per pass (before or after its work, so control calls land both before and "
+          "after the notifications queued in the same pass), advances the virtual clock by 0-20 ms per tick, completes/blocks due "
+          "leaves (a paused leaf holds its work back), resumes 0-3 ticks after (or inside) the root's block callback and applies the "
+          "script. Run A: script S1 of 3-30 ticks: start only / start plus 1-3 pause-resume pairs with gap 0-4 / 2-8 random "
+          "start,pause,resume,stop,reset calls at random ticks incl. redundant ones, pause..resume+stop(+reset+start) and "
+          "stop+reset+start in one tick. Then stop+reset+start in one tick, reset+start without stop, or stop/reset/start over three "
+          "ticks, and run B under S2 (0-3 pause-resume pairs, optional cut-off tick, optional resume right before the final "
+          "stop+delete); run B' repeats S2 on a freshly built tree. Every run ends with stop()+delete in one tick followed by three "
+          "more passes under ASan. exhaustive: every single composite (all modes; Sequence/Parallel with 2 and 3 children; IfElse 3 "
+          "shapes; IfThen 1 and 2 pairs; Switch with and without default; Repeat times 0,1,2) over probe leaves drawn from "
+          "{succeed at once, fail at once, succeed after a tick, fail after a tick, block at once then succeed inside onResume"
+          " [, block after a tick then fail a tick after the resume]} (two-step scripts for Loop/Repeat), crossed with: no control call, "
+          "pause at tick 0-3 with resume 0-2 ticks later, stop at tick 0-3, reset+start at tick 0-3, pause at tick 0-3 followed one tick later by resume+stop+reset+start in one tick, and both tick orders. "
+          "A case is non-trivial when the tree has at least two composite levels (any tree in the exhaustive legs) and at least three "
+          "control calls changed the root's state; distinct = distinct hashes of (tree, S1, S2, transition)"),
+    assumptions=[
+        "Reference semantics are the pseudo-code in actions/*.h with these readings where the header is silent or a baseline test pins "
+        "something else: Sequence falling off the end reports the last child's result (test FinishIfAllFinish_AllFail), an empty "
+        "Sequence succeeds; Parallel always reports success and finishes when all children finished or (AnySucc/AnyFail) one child "
+        "delivered the deciding result, then stops the others; IfElse with the taken branch missing succeeds (tests "
+        "CondSuccNoIfAction/CondFailNoElseAction); IfThen with no condition true fails; Switch fails when the switch child fails or no "
+        "case/default matches, the case is the child's reason message; Repeat that runs out of times (also times=0: no child start) "
+        "succeeds; LoopIf ends with setFinishResult()'s value when the condition fails.",
+        "Probe leaves behave like well-written leaves: they finish/block only while running (work is held back while paused), continue "
+        "from onResume only after their own block, and drop their pending work in onStop/onReset.",
+        "A timed-out node must finish with failure, never before its timeout of un-paused run time (time spent blocked counts, because "
+        "block() leaves the timer armed), and at the first pass after its timeout elapsed while it ran without interruption.",
+        "A block notification already in flight when the root finishes by timeout may still be delivered; one in flight when the root "
+        "is stopped or reset may not (property text).",
+        "The pause-cascade invariant (paused root => no running descendant, running root => no paused descendant) is only checked in "
+        "runs in which no leaf has blocked: with a block notification in flight a pause+resume pair can legitimately leave a composite "
+        "paused above a leaf that was resumed in between.",
+        "Sleep leaves finishing before their span of un-paused time (SleepAction does not update its finish time on resume, so a second "
+        "pause computes a wrong remainder) are counted (note_sleep_finished_before_its_span_of_unpaused_time) but not judged: the "
+        "property does not speak about sleep durations.",
+        "action_executor.cpp is anchored but the property statement makes no claim about the executor; it is not driven by this check.",
+        "Only the first violation of a case is reported (later ones are usually consequences); symptoms seen in a run that began right "
+        "after a stop/reset with a re-posted child result in flight are grouped under one key with the symptom class in the detail.",
+    ],
+    technique=("runtime monitoring of the real composites on a real event loop under a virtual clock: every node is a thin subclass that logs "
+               "the protected lifecycle hooks; per-composite reference automata and a big-step evaluator written from the documented "
+               "pseudo-code, lifecycle/cleanup/notification/progress monitors, reset-vs-fresh trace comparison; ASan+UBSan with "
+               "stop()+delete in one tick"),
+    level_text=("Every generated tree/schedule is executed on the real code and every start, finish, stop, pause, resume, block, reset, "
+                "final hook and timeout of every node is checked online against independent reference automata of the documented "
+                "control flow, a big-step prediction of the root result and leaf start order, lifecycle/cleanup/notification/progress "
+                "invariants, and the trace of a freshly built tree; a sub-space of all single composites x small leaf alphabet x one "
+                "control placement is enumerated completely. Held on the cases explored, not a proof."),
+    level_note=("trusts the reference automata/evaluator (readings listed under assumptions), the virtual steady-clock hook, the hook-logging "
+                "subclasses (they only log and forward) and gcc ASan/UBSan"),
+    required_counters={"all": ["run_" + k for k in _KINDS] + [
+        # serial composites hold back a child's result while paused and replay it on resume
+        "serial_child_finished_while_parent_paused", "pause_between_child_finish_and_parent_handling",
+        "resumed_with_child_result_to_replay", "stopped_with_replayed_child_result_in_flight",
+        "reset_with_replayed_child_result_in_flight",
+        "parallel_child_finished_while_parallel_paused", "parallel_paused_with_child_finish_in_flight",
+        # queued notifications withdrawn on reset / stop / destruction
+        "reset_with_finish_notification_queued", "reset_with_block_notification_queued", "stop_with_block_notification_queued",
+        "stop_then_delete_in_one_tick", "resume_then_stop_then_delete_in_one_tick",
+        "root_finish_callback", "root_block_callback", "resume_inside_block_callback", "resume_some_ticks_after_block_callback",
+        # lifecycle state machine
+        "pause_effective", "resume_effective", "stop_effective", "reset_effective", "reset_while_underway", "stopped_while_paused",
+        "several_control_calls_in_one_tick", "final_hook",
+        "transition_stop_reset_start_in_one_tick", "transition_reset_without_stop", "transition_stop_reset_start_over_three_ticks",
+        # leaves and timeouts
+        "leaf_finish_inside_onStart", "leaf_finish_later", "leaf_block_inside_onStart", "leaf_finish_inside_onResume",
+        "leaf_finish_after_block_and_resume", "leaf_never", "sleep_finished",
+        "timeout_fired", "timeout_finished_composite", "timeout_finished_leaf", "timeout_fired_while_blocked",
+        # oracles that actually compared something
+        "bigstep_root_result_compared", "bigstep_order_compared_finished_run", "bigstep_counts_compared_finished_run",
+        "bigstep_order_prefix_compared", "reset_vs_fresh_traces_compared", "predicted_finishes", "predicted_never_finishes",
+        "predicted_unbounded_loop",
+    ]},
 )
